@@ -1394,6 +1394,23 @@ func dirtyObligations(p *Prog, r *Report) {
 					_, isLookup := ex.Tuple.(*ssa.Lookup)
 					return isLookup
 				})
+				if !okGuard && fi.Name() != "generator.(*generator).requireContext" {
+					// the store sits in a private helper of requireContext: the guard must hold at every call of it
+					sites := p.SSACallSites(st.Parent())
+					okGuard = len(sites) > 0
+					for _, cs := range sites {
+						if !dominatedByEdge(cs.Block(), false, func(c ssa.Value) bool {
+							ex, ok := c.(*ssa.Extract)
+							if !ok || ex.Index != 1 {
+								return false
+							}
+							_, isLookup := ex.Tuple.(*ssa.Lookup)
+							return isLookup
+						}) {
+							okGuard = false
+						}
+					}
+				}
 				if hasInsert && okGuard {
 					r.OK(site, pos, "only after inserting a context type that was absent (finite set of types)")
 				} else {
